@@ -22,21 +22,21 @@ for pad in (0, 1):
                 49, (['-DVERIF_PARSE_LC_PAD'] if pad else []) + (['-DVERIF_PARSE_LC_VBR'] if vbr else []))
 PARSE_CASES = {k: v[0] for k, v in _PC.items()}
 for _k, (_v, _u, _d) in _PC.items():
-    GROUPS.append(dict(name='parse_impl_' + _k, cls='P', tu='C06_parse_impl.c', entry='h_parse_impl',
+    GROUPS.append(dict(name='parse_impl_' + _k, cls='P', tu='C06_parse_impl.c', entry='h_parse_impl', tier='off' if _k.startswith('c3_') else 'quick',
         enforce=['opus_packet_parse_impl'], unwind=_u, timeout=900,
         defines=['-DVERIF_PARSE_CASE(data,len,sd)=' + _v] + _d,
         what='opus_packet_parse_impl contract (E1-E9, assigns, loop invariants, no abort) for sub-case ' + _k + ', len unbounded'))
 
 for _k, (_v, _u, _d) in _PC.items():
-    GROUPS.append(dict(name='parse_h_' + _k, cls='P', tu='C06_parse_h.c', entry='h_parse_h', canary='real',
+    GROUPS.append(dict(name='parse_h_' + _k, cls='P', tu='C06_parse_h.c', entry='h_parse_h', canary='real', tier='off',
         unwind=_u, timeout=900, expect_canaries=2, functions=['opus_packet_parse_impl'],
         defines=['-DVERIF_PARSE_CASE(data,len,sd)=' + _v] + _d,
         what='opus_packet_parse_impl clauses E2-E9 asserted after a direct call (H style), sub-case ' + _k + ', len unbounded'))
 
 for _k, (_v, _u, _d) in _PC.items():
     if _k.startswith('c3_'):
-        GROUPS.append(dict(name='parse_hs_' + _k, cls='P', tu='C06_parse_h.c', entry='h_parse_h', canary='real',
-            unwind=_u, timeout=900, expect_canaries=2, functions=['opus_packet_parse_impl'], mem_gb=20,
+        GROUPS.append(dict(name='parse_hs_' + _k, cls='P', tu='C06_parse_h.c', entry='h_parse_h', canary='real', tier='thorough' if '_v1_' in _k else 'off',
+            unwind=_u, timeout=5400, expect_canaries=2, functions=['opus_packet_parse_impl'], mem_gb=20,
             defines=['-DVERIF_PARSE_CASE(data,len,sd)=' + _v, '-DVERIF_PARSE_LC_SIMPLE'] + _d,
             what='H style, all reachable loops under contract, sub-case ' + _k))
 
@@ -48,8 +48,8 @@ for (lo, hi) in ((1, 8), (9, 16), (17, 32), (33, 48)):
     for pad in (0, 1):
         for sd in (0, 1):
             _v = '(len>=2 && ((data)[0]&3)==3 && (((data)[1]&0x40)!=0)==%d && (((data)[1]&0x80)!=0)==0 && ((sd)!=0)==%d && ((data)[1]&0x3F)>=%d && ((data)[1]&0x3F)<=%d)' % (pad, sd, lo, hi)
-            GROUPS.append(dict(name='parse_hc_p%d_s%d_n%d' % (pad, sd, lo), cls='P', tu='C06_parse_h.c', entry='h_parse_h', canary='real',
-                unwind=49, timeout=1200, expect_canaries=2, functions=['opus_packet_parse_impl'], mem_gb=20,
+            GROUPS.append(dict(name='parse_hc_p%d_s%d_n%d' % (pad, sd, lo), cls='P', tu='C06_parse_h.c', entry='h_parse_h', canary='real', tier='thorough',
+                unwind=49, timeout=5400, expect_canaries=2, functions=['opus_packet_parse_impl'], mem_gb=20,
                 defines=['-DVERIF_PARSE_CASE(data,len,sd)=' + _v, '-DVERIF_PARSE_LC_SIMPLE'] + (['-DVERIF_PARSE_LC_PAD'] if pad else []),
                 what='H style, CBR code 3, count in %d..%d, pad=%d, self_delimited=%d; all loops under contract, len unbounded' % (lo, hi, pad, sd)))
 
@@ -73,7 +73,7 @@ for _code in range(3):
         defines=['-DVERIF_LEN_MAX=20', '-DVERIF_IFF_CASE(d,len,sd)=(((d)[0]&3)==%d)' % _code], bounds='len <= 20 bytes',
         what='as iff_rfc_code%d with len <= 20' % _code))
 
-GROUPS.append(dict(name='parse_pad_n1', cls='P', tu='C06_parse_h.c', entry='h_parse_h', canary='real', unwind=3, timeout=900, expect_canaries=2,
+GROUPS.append(dict(name='parse_pad_n1', tier='thorough', cls='P', tu='C06_parse_h.c', entry='h_parse_h', canary='real', unwind=3, timeout=5400, expect_canaries=2,
     functions=['opus_packet_parse_impl'],
     defines=['-DVERIF_PARSE_CASE(data,len,sd)=(len>=2 && ((data)[0]&3)==3 && ((data)[1]&0x40)!=0 && ((data)[1]&0x3F)<=2)', '-DVERIF_PARSE_LC_PAD'],
     what='padding chain (do-while under loop contract, unbounded len) followed by at most 2 frames, CBR or VBR, both framings'))
